@@ -4,8 +4,13 @@
    Clause of the property text                          -> theorem
    -----------------------------------------------------------------------------------------------
    SEQUENTIAL (every history of create/null/copy/fromraw/assign/assignraw/assignval/reset/swap/write/
-   detach/resize/reserve/destroy on the handle variables of String | Variant | RefCount::Ptr | Xml::Variant; the value
-   of a payload is its contents, RcModel.push):
+   detach/resize/reserve/strmod/strcat/retype/destroy on the handle variables of String | Variant | RefCount::Ptr | Xml::Variant;
+   the value of a payload is its contents, RcModel.push.  strmod = any modifier of String that is `detach(..)` followed by a
+   write into the own block, in a mode md: append(char), resize, reserve, toLowerCase, toUpperCase, replace(char, char), a store
+   through operator char*, append / prepend of characters; strcat = append / operator+= / prepend of another handle's text, which
+   may be the handle itself or a handle to the same payload; retype = the `type != T` branch of the write accessors and value
+   assignments of Variant / Xml::Variant.  Scalar assignment to a Variant is reset (clear() + inline data); Variant::swap, the
+   local copy prepend keeps, and the String that trim assigns are histories of these operations over a seventh variable):
    counter = number of live handles referring to b      -> seq_count_is_number_of_handles
    released exactly once                                -> seq_released_exactly_once, seq_release_is_final
    ... after the last handle has gone (and then at once)-> seq_released_iff_last_handle_gone
@@ -19,6 +24,11 @@
                                                            whole histories: the Model computes what the Spec, in
                                                            which every variable owns its value, computes; for
                                                            RefCount::Ptr the identities of the objects agree too)
+   every modifier that is detach-then-write-into-the-own-block, whatever it writes (mode md arbitrary), keeps the invariant
+   and changes the value read through that one variable only
+                                                        -> seq_detach_then_modify_keeps_invariant,
+                                                           seq_detach_then_modify_changes_one_value
+   the type-changing branch likewise                    -> seq_type_change_keeps_invariant
    what the fault monitors mean                         -> monitor_access_means_not_released,
                                                            monitor_inplace_write_means_unshared,
                                                            monitor_release_means_first_release
@@ -154,6 +164,23 @@ Theorem seq_other_handles_keep_their_value : forall f ops o w, ~ In w (op_vars o
 Proof. exact others_keep_their_value. Qed.
 Print Assumptions seq_other_handles_keep_their_value.
 
+Theorem seq_detach_then_modify_keeps_invariant : forall s v r o md,
+  Inv s -> (v < length (vars s))%nat -> getv s v = VLive r o -> Inv (str_detach s v r md).
+Proof. exact Inv_str_detach. Qed.
+Print Assumptions seq_detach_then_modify_keeps_invariant.
+
+Theorem seq_detach_then_modify_changes_one_value : forall s v r o md,
+  Inv s -> (v < length (vars s))%nat -> getv s v = VLive r o ->
+  RcRefine.abs FStr (str_detach s v r md) = upd v (smod (RcRefine.abs_var FStr s (VLive r o)) md) (RcRefine.abs FStr s).
+Proof. exact (fun s v r o md I L G => abs_str_detach FStr s v r o md I eq_refl L G). Qed.
+Print Assumptions seq_detach_then_modify_changes_one_value.
+
+Theorem seq_type_change_keeps_invariant : forall f s v r o c,
+  Inv s -> (v < length (vars s))%nat -> getv s v = VLive r o ->
+  Inv (retype f s v r c) /\ (is_ptr f = false -> abs f (retype f s v r c) = upd v (SVal 0 c) (abs f s)).
+Proof. exact (fun f s v r o c I L G => conj (Inv_retype f s v r o c I L G) (fun NP => abs_retype f s v r o c I NP L G)). Qed.
+Print Assumptions seq_type_change_keeps_invariant.
+
 (* ---- non-vacuity ---------------------------------------------------------------------------------- *)
 (* a String history with sharing, a clone on write, an in-place write and both releases *)
 Example ex_hist_blocks :
@@ -166,19 +193,37 @@ Example ex_count : count_refs 1 (vars (run FStr (firstn 6 ex_hist))) = 2%nat /\ 
   /\ slen 5349 = 5 /\ cap (getb (run FStr (firstn 6 ex_hist)) 1) = 7.
 Proof. vm_compute. repeat split. Qed.
 (* values: variable 0 keeps "123" while its copy, variable 1, is written twice (clone, then in place) *)
-Example ex_values : abs FStr (run FStr (firstn 5 ex_hist)) = [SVal 0 83; SVal 0 5349; SVal 0 83; SDead; SDead; SDead]
-  /\ svars (spec_run FStr (firstn 5 ex_hist)) = [SVal 0 83; SVal 0 5349; SVal 0 83; SDead; SDead; SDead].
+Example ex_values : abs FStr (run FStr (firstn 5 ex_hist)) = [SVal 0 83; SVal 0 5349; SVal 0 83; SDead; SDead; SDead; SDead]
+  /\ svars (spec_run FStr (firstn 5 ex_hist)) = [SVal 0 83; SVal 0 5349; SVal 0 83; SDead; SDead; SDead; SDead].
 Proof. vm_compute. split; reflexivity. Qed.
 (* Variant: a value assignment through a shared handle clones, the next one is in place; the other handle keeps "12" and is then written *)
 Example ex_values_var :
   map (fun k => (rc k, freed k, dtors k, val k)) (heap (run FVar (firstn 5 ex_hist_var))) = [(1, false, 0%nat, 87); (1, false, 0%nat, 84)]
-  /\ abs FVar (run FVar (firstn 5 ex_hist_var)) = [SVal 0 87; SVal 0 84; SDead; SDead; SDead; SDead]
+  /\ abs FVar (run FVar (firstn 5 ex_hist_var)) = [SVal 0 87; SVal 0 84; SDead; SDead; SDead; SDead; SDead]
   /\ map (fun k => (freed k, dtors k)) (heap (run FVar ex_hist_var)) = [(true, 1%nat); (true, 1%nat)].
+Proof. vm_compute. repeat split. Qed.
+(* the other modifiers of String: "AbC " (2231) shared by 0 and 1; 1 lowered -> "abc " (671), 0 keeps its text; 2 = copy of 1 with the
+   text of 0 in front; 0 appended to itself and trimmed: "AbC AbC" *)
+Example ex_values_mod :
+  abs FStr (run FStr (firstn 3 ex_hist_mod)) = [SVal 0 2231; SVal 0 671; SDead; SDead; SDead; SDead; SDead]
+  /\ map (fun k => (rc k, freed k)) (heap (run FStr (firstn 3 ex_hist_mod))) = [(1, false); (1, false)]
+  /\ abs FStr (run FStr ex_hist_mod) = svars (spec_run FStr ex_hist_mod)
+  /\ markers (peek (run FStr ex_hist_mod) 2) = [4; 2; 6; 7; 1; 2; 3; 7] /\ markers (peek (run FStr ex_hist_mod) 0) = [4; 2; 6; 7; 4; 2; 6]
+  /\ markers (peek (run FStr ex_hist_mod) 1) = [1; 2; 3; 7]
+  /\ flt (run FStr ex_hist_mod) = None.
+Proof. vm_compute. repeat split. Qed.
+(* Variant: scalar assignment through a shared handle releases nothing (the other handle still refers to the payload), swap moves it,
+   the type-changing accessor on a shared payload makes a new one and leaves the other handle's alone *)
+Example ex_values_var2 :
+  map (fun k => (rc k, freed k, val k)) (heap (run FVar (firstn 3 ex_hist_var2))) = [(1, false, 10)]
+  /\ abs FVar (run FVar (firstn 7 ex_hist_var2)) = [SNull; SVal 0 10; SDead; SDead; SDead; SDead; SDead]
+  /\ map (fun k => (rc k, freed k, dtors k, val k)) (heap (run FVar ex_hist_var2)) = [(1, false, 0%nat, 10); (0, true, 1%nat, 0); (1, false, 0%nat, 83)]
+  /\ abs FVar (run FVar ex_hist_var2) = [SNull; SVal 0 10; SVal 0 83; SDead; SDead; SDead; SDead].
 Proof. vm_compute. repeat split. Qed.
 (* RefCount::Ptr, whole history, with identities: p0 = &*p0 keeps object 0 alive; p1 = &*p2 shares object 1 *)
 Example ex_values_ptr :
-  abs FPtr (run FPtr (firstn 6 ex_hist_ptr)) = [SVal 1 6; SVal 1 6; SVal 0 5; SDead; SDead; SDead]
-  /\ svars (spec_run FPtr (firstn 6 ex_hist_ptr)) = [SVal 1 6; SVal 1 6; SVal 0 5; SDead; SDead; SDead]
+  abs FPtr (run FPtr (firstn 6 ex_hist_ptr)) = [SVal 1 6; SVal 1 6; SVal 0 5; SDead; SDead; SDead; SDead]
+  /\ svars (spec_run FPtr (firstn 6 ex_hist_ptr)) = [SVal 1 6; SVal 1 6; SVal 0 5; SDead; SDead; SDead; SDead]
   /\ map (fun k => (rc k, freed k)) (heap (run FPtr (firstn 6 ex_hist_ptr))) = [(1, false); (2, false)]
   /\ map (fun k => (freed k, dtors k)) (heap (run FPtr ex_hist_ptr)) = [(true, 1%nat); (true, 1%nat)].
 Proof. vm_compute. repeat split. Qed.
